@@ -23,6 +23,13 @@ pub const EBADF: i32 = -9;
 /// O_DIRECT handle (the low four bits select the IOSQE flag).
 pub const DIRECT: u8 = 16;
 
+/// zero-length operation submitted with a NULL buffer pointer (directed,
+/// child-process scenarios only)
+pub const NULLPTR: u8 = 32;
+/// through a handle opened read-only / write-only
+pub const RDONLY: u8 = 64;
+pub const WRONLY: u8 = 128;
+
 pub fn is_direct(flag: u8) -> bool {
     flag & DIRECT != 0
 }
@@ -236,7 +243,13 @@ impl Script {
                         1 => "+async",
                         _ => "+badflag",
                     };
-                    let d = if is_direct(*flag) { "+direct" } else { "" };
+                    let d = format!(
+                        "{}{}{}{}",
+                        if is_direct(*flag) { "+direct" } else { "" },
+                        if flag & NULLPTR != 0 { "+nullptr" } else { "" },
+                        if flag & RDONLY != 0 { "+rdonly" } else { "" },
+                        if flag & WRONLY != 0 { "+wronly" } else { "" }
+                    );
                     format!("push(r{ring},{},{k}{fl}{d})", ud(*u))
                 }
                 RAct::Submit { ring } => format!("submit(r{ring})"),
@@ -288,6 +301,8 @@ pub fn gen_script(rng: &mut Rng, max_acts: usize, crashes: bool) -> Script {
         fs_seed: rng.next_u64(),
         capacity: None,
         dio_align: None,
+        rw_modes: false,
+        io_err: 0.0,
     };
     let nrings = rng.range(1, 3) as usize;
     let depths: Vec<u32> = (0..nrings).map(|_| *rng.pick(&[1u32, 2, 4, 8])).collect();
@@ -304,6 +319,11 @@ pub fn gen_script(rng: &mut Rng, max_acts: usize, crashes: bool) -> Script {
         cfg.dio_align = Some(8);
     }
     let dio = cfg.dio_align;
+    // every file also gets a read-only and a write-only handle
+    if rng.chance(0.4) {
+        cfg.rw_modes = true;
+    }
+    let modes = cfg.rw_modes;
     let n = rng.range(6, max_acts as u64) as usize;
     let (lmin, lmax) = (lat.min().as_nanos() as u64, lat.max().as_nanos() as u64);
     let mut acts = vec![];
@@ -328,6 +348,7 @@ pub fn gen_script(rng: &mut Rng, max_acts: usize, crashes: bool) -> Script {
             });
             if let Some(RAct::Push { kind, flag, .. }) = acts.last_mut() {
                 directify(rng, dio, kind, flag);
+                modeify(rng, modes, kind, flag);
             }
             continue;
         }
@@ -355,6 +376,7 @@ pub fn gen_script(rng: &mut Rng, max_acts: usize, crashes: bool) -> Script {
                 };
                 let mut kind = kind;
                 directify(rng, dio, &mut kind, &mut flag);
+                modeify(rng, modes, &kind, &mut flag);
                 acts.push(RAct::Push { ring, ud, kind, flag });
             }
             42..=43 => {
@@ -430,6 +452,15 @@ fn directify(rng: &mut Rng, dio: Option<u64>, kind: &mut SqKind, flag: &mut u8) 
     }
 }
 
+/// With access-mode handles configured: send some SQEs through the read-only
+/// or the write-only handle of the file (both matching and mismatching the op).
+fn modeify(rng: &mut Rng, modes: bool, kind: &SqKind, flag: &mut u8) {
+    if !modes || is_direct(*flag) || matches!(kind, SqKind::Cancel { .. }) || !rng.chance(0.3) {
+        return;
+    }
+    *flag |= if rng.coin() { RDONLY } else { WRONLY };
+}
+
 fn gen_kind(rng: &mut Rng, nfiles: usize, known: &[u64]) -> SqKind {
     let file = rng.usize_below(nfiles);
     match rng.below(100) {
@@ -496,6 +527,8 @@ pub struct Model {
     /// generation of each file's O_DIRECT handle (None = not open)
     pub direct_gen: Vec<Option<u64>>,
     pub dio_align: Option<u64>,
+    /// generation of each file's read-only / write-only handle pair
+    pub mode_gen: Vec<Option<u64>>,
     pub next_gen: u64,
     /// user_data lost in a crash: must never complete
     pub dead: BTreeSet<u64>,
@@ -513,6 +546,8 @@ pub struct CqeExpect {
     pub undetermined_closed: bool,
     /// misaligned O_DIRECT operation: -EINVAL, no effect
     pub misaligned_direct: bool,
+    /// refused by the descriptor's access mode
+    pub mode_denied: bool,
 }
 
 impl Model {
@@ -530,6 +565,7 @@ impl Model {
             open_gen: vec![None; s.nfiles],
             direct_gen: vec![None; s.nfiles],
             dio_align: s.cfg.dio_align,
+            mode_gen: vec![None; s.nfiles],
             next_gen: 1,
             dead: BTreeSet::new(),
             now: 0,
@@ -545,6 +581,11 @@ impl Model {
 
     pub fn open_direct(&mut self, i: usize) {
         self.direct_gen[i] = Some(self.next_gen);
+        self.next_gen += 1;
+    }
+
+    pub fn open_modes(&mut self, i: usize) {
+        self.mode_gen[i] = Some(self.next_gen);
         self.next_gen += 1;
     }
 
@@ -566,6 +607,8 @@ impl Model {
             SqKind::Read { file, .. } | SqKind::Write { file, .. } | SqKind::Fsync { file } => {
                 if is_direct(flag) {
                     self.direct_gen[*file]
+                } else if flag & (RDONLY | WRONLY) != 0 {
+                    self.mode_gen[*file]
                 } else {
                     self.open_gen[*file]
                 }
@@ -647,6 +690,7 @@ impl Model {
             data: None,
             undetermined_closed: false,
             misaligned_direct: false,
+            mode_denied: false,
         };
         if inf.cancelled {
             exp.results = vec![ECANCELED];
@@ -669,6 +713,8 @@ impl Model {
         };
         let current = if is_direct(inf.e.flag) {
             self.direct_gen[file]
+        } else if inf.e.flag & (RDONLY | WRONLY) != 0 {
+            self.mode_gen[file]
         } else {
             self.open_gen[file]
         };
@@ -680,6 +726,20 @@ impl Model {
             exp.undetermined_closed = true;
         }
         let path = file_path(file);
+        // access mode of the descriptor: a write through a read-only
+        // descriptor / a read through a write-only one fails with EBADF and
+        // has no effect (the sync API refuses them too)
+        let denied = match &inf.e.kind {
+            SqKind::Write { .. } => inf.e.flag & RDONLY != 0,
+            SqKind::Read { .. } => inf.e.flag & WRONLY != 0,
+            _ => false,
+        };
+        if denied {
+            exp.results = vec![EBADF];
+            exp.misaligned_direct = true; // = "error, no effect, not for the twin"
+            exp.mode_denied = true;
+            return Some((inf, exp));
+        }
         if is_direct(inf.e.flag) {
             // O_DIRECT: offset and length must be multiples of the alignment
             // (the harness always supplies an aligned buffer), else EINVAL
@@ -775,6 +835,9 @@ impl Model {
         for g in &mut self.direct_gen {
             *g = None;
         }
+        for g in &mut self.mode_gen {
+            *g = None;
+        }
     }
 }
 
@@ -789,6 +852,8 @@ pub fn gen_san_script(rng: &mut Rng) -> Script {
         fs_seed: rng.next_u64(),
         capacity: None,
         dio_align: None,
+        rw_modes: false,
+        io_err: 0.0,
     };
     let nfiles = rng.range(1, 2) as usize;
     let depth = *rng.pick(&[4u32, 8]);
